@@ -258,6 +258,8 @@ func c13Inputs(ctx *core.Ctx) {
 	for i := 0; i < sp.Size(); i += 97 {
 		models = append(models, sp.At(i))
 	}
+	// size sweeps, with the direct assignment second, third, in the middle and last among up to 128 operands
+	models = append(models, gen.SweepModelsJSON(sweepSizes(ctx))...)
 	for i, tm := range models {
 		if !ctx.Mine(i) || tm.M.Module != "" {
 			continue
@@ -777,7 +779,7 @@ func init() {
 	core.Extra["racepass"] = racePass
 	core.Register(&core.Check{
 		ID: "C13",
-		Rule: "(1) inputs untouched: every full model of the generator families, the modular models and every 97th graph model, with the type definitions reversed, through printer (both options), both graph builders and the utils: strict snapshot before = after; module file slices through the merger. " +
+		Rule: "(1) inputs untouched: every full model of the generator families, the modular models, every 97th graph model and the size sweeps (direct assignment second, third, in the middle and last among up to 128 operands), with the type definitions reversed, through printer (both options), both graph builders and the utils: strict snapshot before = after; module file slices through the merger. " +
 			"(2) history independence, explicit-state search: state = contents of the process-global ANTLR caches (serialised DFAs), transitions = the real parse entry points on 8 documents (valid, invalid, modular) plus printer (also on two variants of the shared model that fail part-way), merger, both graph builders and validators, plus one weighted-graph builder value that lives as long as the process, given three models whose tuple-to-usersets resolve against different types (its inputs so far are part of the state key); successor = cache reset + replay of the history + one call; breadth first to depth 3 (quick) / 4 (thorough), no state merging below depth 3; invariant on every transition: output equals the cold output, and every object returned earlier in the history (models, graphs) still renders as it did when it was returned. " +
 			"(3) interleavings: pairs of 13 calls (quick: every call with itself and with three hub calls; thorough: every pair) (parses, modular parse, DSL->JSON, printing shared models, a print that fails part-way, merge, both graph builders on a shared model, validators) as two controlled threads with caches reset, scheduling points at every statement of the repository's packages and every antlr lock operation, preemption bound 1 (thorough: bound 2 on short pairs, three threads bound 1): each result equals the sequential result, shared inputs unchanged, no deadlock, no panic. " +
 			"(4) the same bodies free-running on real threads in a separate -race build: no report with a repository frame. states = cache states + schedule classes, non-trivial = distinct models / call pairs",
